@@ -29,7 +29,7 @@ func init() {
 			"termination is observed by the per-run watchdog (a hang makes the run inconclusive, with the case id in the worker's current-case file)",
 			"the prefix relation is event-for-event on (delta, canonical message bytes); a missing end-of-track at the end of the last track is a legitimate prefix",
 		},
-		Require: []string{"many_chunks_small_stack_reads", "shape_additivity_checks", "reads_after_failed_read", "sequence_failed_reads", "truncations", "truncation_results_ok_value", "truncation_results_error", "mutants", "random_strings", "targeted", "alloc_measurements", "reads_with_log", "big_payload_truncations", "proportionality_checks", "concurrent_truncation_files", "reads_from_sources_without_len_or_seek"},
+		Require: []string{"many_chunks_small_stack_reads", "shape_additivity_checks", "reads_after_failed_read", "sequence_failed_reads", "truncations", "truncation_results_ok_value", "truncation_results_error", "mutants", "random_strings", "targeted", "alloc_measurements", "reads_with_log", "big_payload_truncations", "proportionality_checks", "concurrent_truncation_files", "reads_from_sources_without_len_or_seek", "kept_truncation_results_rechecked"},
 		UsesCur: true,
 		Run:     runC05,
 	})
@@ -47,6 +47,18 @@ type c05Run struct {
 	ms   runtime.MemStats
 	n    int
 	kind int // > 0: force this source kind for the next reads
+	// accepted truncation results of the previous file, rechecked after the reads of the next one
+	prevKept     []c05Kept
+	prevTruth    *ref.File
+	prevDeclared int
+	prevLen      int
+	prevHex      string
+}
+
+// c05Kept is an accepted result of reading a truncated file, kept by the caller
+type c05Kept struct {
+	s   *smf.SMF
+	cut int
 }
 
 // opaqueReader hides everything but Read (no Len, Size, Seek, ReadAt, WriteTo): the library cannot ask the source how
@@ -268,6 +280,7 @@ func runC05(c *mon.Ctx) {
 		truth := f.Truth()
 		declared := len(f.Tracks)
 		c.CurPayload(b)
+		var keptVals []c05Kept
 		for cut := 0; cut < len(b); cut++ {
 			p := b[:cut]
 			in := map[string]any{"file": mon.Hex(b), "truncated_at": cut, "of": len(b)}
@@ -287,8 +300,25 @@ func runC05(c *mon.Ctx) {
 			c.Count("truncation_results_ok_value", 1)
 			if d := prefixOK(truth, fromLib(s), declared); d != "" {
 				c.Violation("truncation-fabricates", fmt.Sprintf("file of %d bytes truncated at %d reads without error but %s", len(b), cut, d), in, describeFile(truth, 20), describeFile(fromLib(s), 20))
+				continue
+			}
+			keptVals = append(keptVals, c05Kept{s, cut})
+		}
+		// the caller keeps what was read (a salvage tool that collects what is left of damaged files): every value
+		// accepted for the PREVIOUS file is still an event-for-event prefix of that file after all the reads of this one
+		// (other content, other lengths), and so are this file's values after the later reads of its own prefixes
+		recheck := func(vals []c05Kept, tr *ref.File, decl int, fileLen int, fileHex string) {
+			for _, kv := range vals {
+				c.Count("kept_truncation_results_rechecked", 1)
+				if d := prefixOK(tr, fromLib(kv.s), decl); d != "" {
+					c.Violation("kept-result-altered", fmt.Sprintf("the value read from a file of %d bytes truncated at %d was an event-for-event prefix when ReadFrom returned; after later reads of other inputs %s", fileLen, kv.cut, d), map[string]any{"file": fileHex, "truncated_at": kv.cut}, describeFile(tr, 20), describeFile(fromLib(kv.s), 20))
+					break
+				}
 			}
 		}
+		recheck(k.prevKept, k.prevTruth, k.prevDeclared, k.prevLen, k.prevHex)
+		recheck(keptVals, truth, declared, len(b), mon.Hex(b))
+		k.prevKept, k.prevTruth, k.prevDeclared, k.prevLen, k.prevHex = keptVals, truth, declared, len(b), mon.Hex(b)
 		// the complete file must of course read to the truth
 		if s, err, p := k.read(b, "complete", mon.Hex(b), false); !p && (err != nil || ref.EqualFiles(truth, fromLib(s)) != "") {
 			c.Violation("complete-file", fmt.Sprintf("complete valid file does not read to its content: %v", err), mon.Hex(b), nil, nil)
